@@ -39,7 +39,7 @@ def ranks_of(blocks):
 def size_vectors(n, tier):
     """team-size vectors for n teams (see DESIGN 2.4)"""
     if n == 2:
-        return [(1, 1), (1, 2), (2, 1), (2, 2), (3, 1), (1, 3)] + ([(3, 3), (2, 3), (8, 1)] if tier == "thorough" else [])
+        return [(1, 1), (1, 2), (2, 1), (2, 2), (3, 1), (1, 3), (9, 5)] + ([(3, 3), (2, 3), (8, 1), (16, 7)] if tier == "thorough" else [])
     if n == 3:
         return [(1, 1, 1), (2, 1, 3)] + ([(3, 2, 1), (1, 3, 2), (2, 2, 2), (1, 8, 1)] if tier == "thorough" else [])
     base = [tuple([1] * n)]
